@@ -331,6 +331,25 @@ def check(out, tier, seed, prop):
                     payload["no_longer_checks"] = "corr_%s_catalog (Model/Catalog.v vs the server's catalogue)" % prop
                 out.violation("%s-%s" % ("mon" if kind == "spec-monitor" else "corr", t["id"]), payload, no_failing_input=(kind == "correspondence"))
                 reported += 1
+    # ---- administrative commands from several connections at the same time: the journal must replay to the catalogue the running
+    # server ended up with (the order of the journal is the order of the effects)
+    if prop == "C05":
+        nc = 6 if tier == "quick" else 60
+        ctraces = [{"id": "C05-conc%d" % i, "cfg": {"req": 1000, "seg_size": 1000000, "cache": False},
+                    "ops": [{"op": "admin_stress", "clients": rng.choice([4, 6, 8]), "rounds": rng.choice([30, 60]), "seed": rng.randrange(1, 1 << 30)},
+                            {"op": "catalog"}, {"op": "restart"}, {"op": "catalog"}]} for i in range(nc)]
+        cimpl = harness.run_traces("srv", ctraces, shards=min(3, nc))
+        stats["concurrent_admin_runs"] = nc
+        for t in ctraces:
+            ob = cimpl[t["id"]]
+            if "crash" in ob or "init_err" in ob:
+                out.violation("crash-%s" % t["id"], {"kind": "impl-crash", "mode": "srv", "trace": t, "detail": str(ob)[-1500:], "what": "the server process died under concurrent administrative commands"})
+                continue
+            o = ob["outs"]
+            stats["concurrent_admin_commands"] = stats.get("concurrent_admin_commands", 0) + o[0].get("performed", 0)
+            if o[2].get("r") != "ok" or o[1].get("r") != "ok" or o[3].get("r") != "ok" or strip_counts(o[1]) != strip_counts(o[3]):
+                out.violation("conc-%s" % t["id"], {"kind": "spec-monitor", "mode": "srv", "trace": t, "before": o[1], "restart": o[2], "after": o[3],
+                                                   "what": "after concurrent administrative commands the catalogue replayed from the journal differs from the one the running server had"})
     return {"traces_validated_against_impl": len(traces), "evaluations": len(traces), "distinct_nontrivial": len({util.digest(t["ops"]) for t in traces}),
             "rule": "seeded histories of administrative commands (ids omitted or given, by-name / by-number addressing, nonexistent targets, duplicate names and ids, delete and re-create) with catalogue listings and restarts; every response and every listing compared with Model/Catalog.v; listing before restart vs after restart",
             "op_histogram": hist, "stats": stats, "samples": [traces[len(corpus())]["ops"][:10]]}
